@@ -1,7 +1,7 @@
 // C15 differential harness: every OpenMP-parallel routine of tapkee, run in-process with a chosen thread count.
 //
 // in : omp r=<routine> T=<threads, 0 = as OMP_NUM_THREADS says> N=<n> D=<dim> k=<neighbours> d=<target dim> seed=<s> reps=<R> [L=<landmarks>]
-//          [dump=1] [trace=1] [m=<method>] [w=<kernel width num>]
+//          [dump=1] [trace=1] [asym=1: asymmetric distance callback] [m=<method>] [w=<kernel width num>]
 //      routines: dist | distl | geo | geol | wlin | wtan | whes | diff | tri | cli | emb
 // out: ok thr=<threads that ran iterations> h=<hash of the result bits, one per repetition>
 //          [V=<hash>@<values>|...]   full result for every distinct hash (dense: rows `a,b;c,d`, sparse: `r:c:v;...`;
@@ -112,6 +112,7 @@ struct distance_cb
 {
     const DenseMatrix* X;
     int coded; // 0: Euclidean; 1: 1 + a*N + b (identifies the call); 2: a + 1 (identifies the first argument)
+               // 3: asymmetric (Euclidean + 1/8 when a < b): the order of the arguments is visible in the result
     int N;
     inline ScalarType distance(IndexType a, IndexType b) const
     {
@@ -121,6 +122,8 @@ struct distance_cb
             return 1.0 + (double)a * N + b;
         if (coded == 2)
             return a + 1.0;
+        if (coded == 3)
+            return (X->col(a) - X->col(b)).norm() + (a < b ? 0.125 : 0.0);
         return (X->col(a) - X->col(b)).norm();
     }
 };
@@ -138,8 +141,10 @@ struct cli_cb
     {
         g_seen.mark();
         g_calls.add(a, b);
-        if (coded)
+        if (coded == 1)
             return 1.0 + (double)a * N + b;
+        if (coded == 3)
+            return (X->col(a) - X->col(b)).norm() + (a < b ? 0.125 : 0.0);
         return (X->col(a) - X->col(b)).norm();
     }
 };
@@ -327,6 +332,11 @@ std::string run_case(std::map<std::string, std::string>& f)
     for (int j = 0; j < d; j++)
         lev(j) = 1.0 + j;
 
+    if (geti("asym", 0))
+    {
+        dcb.coded = 3;
+        ccb.coded = 3;
+    }
     if (trace)
     {
         if (r == "dist" || r == "distl" || r == "diff")
